@@ -56,6 +56,10 @@ def rat(s):
 
 def parse_answer(line, numf):
     """-> dict(kind, ...) ; numf converts a number token"""
+    try: return _parse_answer(line, numf)
+    except (ValueError, IndexError): return dict(kind='other', text=line)      # a mangled answer line is an answer of no known kind, never a crash of the check
+
+def _parse_answer(line, numf):
     t = line.split(' ')
     if t[0] == 'ok' and len(t) >= 2 and t[1].startswith('n='):
         d = dict(kind='ok', n=int(t[1][2:]), els=[], ns=[], fr=[], extra=[])
@@ -199,7 +203,9 @@ class Run:
             out = []; i = 0
             while i < len(ls):
                 p = subprocess.run([self.cdrv], input='\n'.join(ls[i:]) + '\n', capture_output=True, text=True, env=env)
-                got = p.stdout.splitlines()[:len(ls) - i]
+                got = p.stdout.splitlines()
+                if got and not p.stdout.endswith('\n'): got = got[:-1]          # the process died while writing an answer: that line is the `died` one
+                got = got[:len(ls) - i]
                 out += got; i += len(got)
                 if i < len(ls):
                     if p.returncode == 0: raise BuildError('c07drv stopped early without diagnostic at: ' + ls[i])
@@ -310,6 +316,13 @@ class Run:
                 if b not in seen_small: seen_small.add(b); out.append(('stray-lower', b, None))
         # subscripts at the edges of the range of double (audit clauses 2/5): fixed inputs
         for t in G.RANGE_INPUTS: out.append(('double-range', t.encode(), None))
+        # "arbitrarily nested parentheses": nesting far beyond what the grammar stream reaches (depth <= 5) — every depth 6..40 with a
+        # multiplier on each level, and a few much deeper ones without (seeded change C07-12: more than 16 open brackets rejected)
+        for d in list(range(6, 41)) + [64, 100, 250, 1000]:
+            out.append(('deep-nesting', ('(' * d + 'H2O' + ')' * d).encode(), None))
+            if d <= 40:
+                out.append(('deep-nesting', ('Ca' + '(' * d + 'OH' + ')2' * d).encode(), None))
+                out.append(('deep-nesting', ('(' * d + 'Si' + ')' * (d - 1) + 'O2)3').encode(), None))
         # bracket transpositions / rotations of generated formulas (two-character edits that keep the bracket COUNT)
         for fam_, b, f in list(out[:400]):
             if fam_ != 'grammar' or b.count(b'(') == 0: continue
